@@ -1068,11 +1068,16 @@ def replay(data):
 # --- translated small functions (tools/gens/gen_pure.py): Props/T_radix50.v proves the regenerated Python functions
 # equal to the hand models this property's theorems are about; explore_t cross-checks the translator itself
 import t_check  # noqa: E402
-PROP_FILES = PROP_FILES + ["Props/T_rad50.v"]
-RUN_FILES = RUN_FILES + ["Run/TRunRad50.v"]
+import t_check4  # noqa: E402  (tools/gens/gen_pure4.py: the whole body of the .rad50 directive regenerated from the AST)
+PROP_FILES = PROP_FILES + ["Props/T_rad50.v", "Props/T_rad50_2.v"]
+RUN_FILES = RUN_FILES + ["Run/TRunRad50.v", "Run/TRun4.v"]
 _explore_without_t = explore
 
 
 def explore(rep, br, tier, seed):
     _explore_without_t(rep, br, tier, seed)
     t_check.explore_t(rep, tier, seed, pid=ID, only=["radix50"])
+    t_check4.explore_t4(rep, tier, seed, pid=ID + "t4")
+
+# session-7 addition to the claimed level (MANIFEST text only)
+LEVEL_TEXT = LEVEL_TEXT + " Props/T_rad50_2.v: the whole body of the .rad50 directive regenerated from the AST (gen_pure4: chunk loop, range check, padding, grouping, pack) is proved equal to Model/Rad50.rad50, the function the C15 theorems are about."
